@@ -17,6 +17,9 @@ PROPS = {}
 # properties deliberately not claimed (id -> reason); ids missing from PROPS are
 # listed automatically as "not built yet"
 NOT_APPLICABLE = {}
+# properties whose monitors have been validated (silent on the tree, sensitive to
+# seeded changes) and are therefore claimed in MANIFEST.json
+CLAIMED = ["C06", "C13"]
 HOOK_COMMITS = ["09c5f91"]
 
 
